@@ -20,7 +20,8 @@ RULE = ('roundtrip units: cookie names from the token alphabet x plain values (t
         'Response/HTTPResponse objects and through a handler behind Ombott.__call__; tamper units: for each signed cookie every '
         'position x {16 substitution symbols, deletion, truncation} in quoted and unquoted transport form, plus swaps / length changes / '
         'other secret / other name. Non-trivial = a signed cookie, or a plain value needing quoting; distinct = distinct Cookie header.')
-REQUIRED = ['set_after_earlier_cookie_operations', 'emitted_by_a_copied_response', 'plain_roundtrips', 'signed_roundtrips', 'quoted_values', 'tamper_reads', 'tamper_substitution', 'tamper_deletion',
+PYOPT = {'quick': 1, 'thorough': 1}     # one unit of every kind is also served by an interpreter started with -O (assert statements compiled out)
+REQUIRED = ['units_run_under_python_-O', 'set_after_earlier_cookie_operations', 'emitted_by_a_copied_response', 'plain_roundtrips', 'signed_roundtrips', 'quoted_values', 'tamper_reads', 'tamper_substitution', 'tamper_deletion',
             'tamper_truncation', 'tamper_swap', 'tamper_other_secret', 'tamper_other_name', 'unpickler_calls_observed', 'read_as_absent',
             'via_wsgi', 'unquoted_form', 'among_other_cookies']
 ASSUMPTIONS = ['cookie names are RFC 6265 tokens accepted by http.cookies; values are non-empty and at most 4096 characters',
@@ -62,7 +63,8 @@ def set_and_emit(kind, name, value, secret=None, prior='none', **opts):
     if kind == 'copied':
         r = r.copy(cls=HTTPResponse)
     vals = [v for k, v in r.headerlist if k == 'Set-Cookie' and v.startswith(name + '=')]
-    assert len(vals) == 1, ('one Set-Cookie line per cookie name', vals)
+    if len(vals) != 1:
+        raise AssertionError(('one Set-Cookie line per cookie name', vals))
     return vals[0]
 
 
@@ -269,9 +271,11 @@ def tamper_unit(ctx, unit):
         sc = mon.sign(name, value, secret)
         pair = cookie_pair(sc)
         signed_string = stdlib_value(pair, name)
-        assert signed_string and signed_string.startswith('!'), pair
+        if not (signed_string and signed_string.startswith('!')):
+            raise AssertionError(pair)
         # sanity: untouched cookie reads back
-        assert new_request(pair).get_cookie(name, secret=secret) == value
+        if new_request(pair).get_cookie(name, secret=secret) != value:
+            raise AssertionError('the untouched signed cookie does not read back')
         mon.check_spy('sanity', None)
         ctx.sample({'cookie': pair, 'value': repr(value), 'secret': secret})
         for form, base in forms_of(pair, name):
